@@ -954,7 +954,8 @@ class HistogramBase(abc.ABC):
                 self._coerce_dtype(other.dtype)
                 self.frequencies = self.frequencies + other.frequencies
                 self.errors2 = self.errors2 + other.errors2
-                self._missed += other._missed
+                # Not in place: an unknown (NaN) missed weight does not fit an integer array
+                self._missed = self._missed + other._missed
             elif self.is_adaptive():
                 if other.missed > 0 or self.missed > 0:
                     # The new bins may cover values that were missed before
@@ -1017,7 +1018,8 @@ class HistogramBase(abc.ABC):
                 self.errors2 = (adapted_self.errors2 + adapted_other.errors2).astype(
                     self.dtype
                 )
-                self._missed -= other._missed
+                # Not in place: an unknown (NaN) missed weight does not fit an integer array
+                self._missed = self._missed - other._missed
             self._stats = INVALID_STATISTICS
             return self
         array = np.asarray(other)
